@@ -15,6 +15,8 @@ import (
 	"fmt"
 	"io"
 	"net"
+	"net/http"
+	"net/http/httptest"
 	"os"
 	"path/filepath"
 	"runtime"
@@ -23,6 +25,7 @@ import (
 	"sync"
 	"sync/atomic"
 	"time"
+	"unicode/utf8"
 
 	"github.com/XiaoMi/Gaea/models"
 	"github.com/XiaoMi/Gaea/proxy/server"
@@ -53,6 +56,29 @@ type Mut struct {
 	V int    `json:"v"`
 	W int    `json:"w,omitempty"`
 	T string `json:"t,omitempty"` // sql: the statement text
+	X string `json:"x,omitempty"` // sql: the statement text in hex (when it is not printable UTF-8)
+}
+
+// text of a sql mutation
+func (m Mut) text() string {
+	if m.X != "" {
+		b, _ := hex.DecodeString(m.X)
+		return string(b)
+	}
+	return m.T
+}
+
+func sqlMut(t string) Mut {
+	printable := utf8.ValidString(t)
+	for i := 0; i < len(t) && printable; i++ {
+		if t[i] < 0x20 || t[i] == 0x7f {
+			printable = false
+		}
+	}
+	if printable {
+		return Mut{K: "sql", T: t}
+	}
+	return Mut{K: "sql", X: hex.EncodeToString([]byte(t))}
 }
 
 // Case = seed + up to two mutations.
@@ -68,7 +94,7 @@ func (c Case) String() string {
 		case "ptype":
 			ms = append(ms, fmt.Sprintf("ptype(type=0x%02x,flag=0x%02x,value_bytes=%d)", m.P, m.V, m.W))
 		case "sql":
-			ms = append(ms, fmt.Sprintf("%q", m.T))
+			ms = append(ms, fmt.Sprintf("%q", m.text()))
 		case "trunc":
 			ms = append(ms, fmt.Sprintf("trunc(%d)", m.P))
 		case "byte":
@@ -91,6 +117,7 @@ type seed struct {
 	build  func(salt []byte) []byte
 	lenenc []int // offsets of 1-byte length prefixes (computed on a sample build)
 	quick  bool  // part of the quick tier
+	multi  bool  // log in to the multi-statement namespace with CLIENT_MULTI_STATEMENTS
 }
 
 const prep2SQL = "select v from tp where id=? and name=?"
@@ -195,6 +222,11 @@ func initSeeds() {
 		cmdSeed("reset_connection_unsupported", "", false, []byte{0x1f}),
 		// sql_text is only used with sql mutations (the broken-statement text family)
 		{name: "sql_text", phase: "command", quick: true, build: func([]byte) []byte { return []byte("\x03select 1") }},
+		{name: "sql_bytes", phase: "command", quick: true, build: func([]byte) []byte { return []byte("\x03select 1") }},
+		// the same through doMultiStmts: multi-statement namespace + CLIENT_MULTI_STATEMENTS
+		{name: "multi_ctrl", phase: "command", quick: true, multi: true, build: func([]byte) []byte { return []byte("\x03select 1;select 2") }},
+		{name: "multi_bytes", phase: "command", quick: true, multi: true, build: func([]byte) []byte { return []byte("\x03select 1;select 2") }},
+		{name: "multi_text", phase: "command", quick: false, multi: true, build: func([]byte) []byte { return []byte("\x03select 1;select 2") }},
 		// exec1 is only used with ptype mutations (the payload is built from the mutation)
 		{name: "exec1", phase: "command", setup: "prepare1", quick: true, build: func([]byte) []byte { return exec1(0, 0x08, 0, -1) }},
 	}
@@ -226,7 +258,7 @@ func apply(s *seed, salt []byte, muts []Mut) []byte {
 		case "ptype":
 			payload = exec1(0, byte(m.P), byte(m.V), m.W)
 		case "sql":
-			payload = append([]byte{0x03}, m.T...)
+			payload = append([]byte{0x03}, m.text()...)
 		case "byte":
 			if m.P < len(payload) {
 				payload[m.P] = byte(m.V)
@@ -295,7 +327,8 @@ func midPacket(b []byte) bool {
 // ---- universe ----------------------------------------------------------------------------
 
 func singleMuts(s *seed) []Mut {
-	if s.name == "exec1" || s.name == "sql_text" {
+	switch s.name {
+	case "exec1", "sql_text", "sql_bytes", "multi_ctrl", "multi_bytes", "multi_text":
 		return nil
 	}
 	n := len(s.build(make([]byte, 20)))
@@ -428,6 +461,35 @@ func sqlTexts() []string {
 	return out
 }
 
+var strayBytes = []byte{0x00, 0x01, 0x1f, 0x7f, 0x80, 0xc3, 0xe2, 0xff}
+
+// byteTexts: statements of known and unknown kind (CALL, WITH, GRANT, garbage are not
+// classified by parser.Preview) with one stray byte inserted at EVERY byte offset.
+func byteTexts() []string {
+	bases := []string{"call p()", "with x as (select 1) select 1", "grant all on *.* to u", "xyz 1", "select 1", "set @a = 1", "insert into tp values (1)", "select 'a' from tp"}
+	var out []string
+	for _, b := range bases {
+		for pos := 0; pos <= len(b); pos++ {
+			for _, c := range strayBytes {
+				out = append(out, b[:pos]+string([]byte{c})+b[pos:])
+			}
+		}
+	}
+	return out
+}
+
+// ctrlTexts: multi-statement texts with one stray byte before / between / after the ';'.
+func ctrlTexts() []string {
+	var out []string
+	for _, c := range strayBytes {
+		x := string([]byte{c})
+		out = append(out,
+			x+"select 1;select 2", "select 1"+x+";select 2", "select 1;"+x+"select 2", "select 1;"+x+";select 2",
+			"select 1; "+x+" ; select 2", "select 1;select 2"+x, "select 1;"+x, "select 1;select 2;"+x, "a;"+x+";b", x+";", ";"+x)
+	}
+	return out
+}
+
 func universe(thorough bool) []Case {
 	var cs []Case
 	for _, s := range seeds {
@@ -443,6 +505,20 @@ func universe(thorough bool) []Case {
 	}
 	for _, t := range sqlTexts() {
 		cs = append(cs, Case{Seed: "sql_text", Muts: []Mut{{K: "sql", T: t}}})
+	}
+	for _, t := range byteTexts() {
+		cs = append(cs, Case{Seed: "sql_bytes", Muts: []Mut{sqlMut(t)}})
+	}
+	for _, t := range ctrlTexts() {
+		cs = append(cs, Case{Seed: "multi_ctrl", Muts: []Mut{sqlMut(t)}})
+	}
+	for _, t := range byteTexts() {
+		cs = append(cs, Case{Seed: "multi_bytes", Muts: []Mut{sqlMut("select 1;" + t)}})
+	}
+	if thorough {
+		for _, t := range sqlTexts() {
+			cs = append(cs, Case{Seed: "multi_text", Muts: []Mut{sqlMut("select 1;" + t)}})
+		}
 	}
 	if thorough {
 		// pairs of mutations on the execute and handshake seeds: byte x byte (p1 < p2),
@@ -481,6 +557,7 @@ func universe(thorough bool) []Case {
 type result struct {
 	outcome string // what the mutated client saw
 	sent    []byte
+	cpu     string // hang: "burning" | "idle" (CPU use of the proxy while the client waited)
 	bad     string // "" | hang | no_close_after_eof
 	detail  string
 }
@@ -508,7 +585,7 @@ func firstByteClass(p []byte) string {
 	return "data"
 }
 
-func runCase(addr string, c Case) result {
+func runCase(addr string, c Case, quickHang bool) result {
 	s := seedByName(c.Seed)
 	var res result
 	cl, err := e2erig.DialRaw(addr, horizon)
@@ -519,8 +596,13 @@ func runCase(addr string, c Case) result {
 	defer cl.Close()
 	if s.phase == "command" {
 		caps := uint32(e2erig.DefaultCaps | e2erig.CapConnectWithDB)
+		user := e2erig.User
+		if s.multi {
+			caps |= e2erig.CapMultiStatements
+			user = multiUser
+		}
 		cl.Seq = 1
-		if err := cl.WritePacket(e2erig.HandshakeResponse(caps, 45, e2erig.User, e2erig.NativePassword(cl.Salt, e2erig.Password), e2erig.DB, "")); err != nil {
+		if err := cl.WritePacket(e2erig.HandshakeResponse(caps, 45, user, e2erig.NativePassword(cl.Salt, e2erig.Password), e2erig.DB, "")); err != nil {
 			res.outcome, res.bad, res.detail = "setup_failed", "setup", err.Error()
 			return res
 		}
@@ -612,7 +694,7 @@ func runCase(addr string, c Case) result {
 				res.outcome = prefix + first
 				return res
 			}
-			if !waits && !pinged && s.phase == "command" {
+			if !waits && !pinged && s.phase == "command" && !quickHang {
 				// the mutated bytes may have swallowed our PING into a command that has no
 				// response (e.g. a longer header length in front of STMT_CLOSE): the server is
 				// then idle, not hung. A fresh PING must be answered.
@@ -666,6 +748,8 @@ type world struct {
 // an inject accessor): it must return to its baseline after every batch / case.
 const (
 	nsName     = "ns_c38"
+	multiNS    = "ns_c38_multi"
+	multiUser  = "verif_multi"
 	maxClients = 1000000
 	maxWorkers = 16
 	// liveness horizon for the counter to drain (several 5 s time-wheel ticks)
@@ -675,7 +759,13 @@ const (
 func spec() e2erig.ChildSpec {
 	ns := e2erig.Namespace(nsName, 16, "@0")
 	ns.MaxClientConnections = maxClients
-	return e2erig.ChildSpec{Prefix: "c38", Backends: 1, Handler: "c38", Namespaces: []*models.Namespace{ns}}
+	// a second namespace with support_multi_query: COM_QUERY of a client that announced
+	// CLIENT_MULTI_STATEMENTS goes through doMultiStmts / SplitStatementToPieces there
+	nm := e2erig.Namespace(multiNS, 16, "@0")
+	nm.MaxClientConnections = maxClients
+	nm.SupportMultiQuery = true
+	nm.Users[0].UserName = multiUser
+	return e2erig.ChildSpec{Prefix: "c38", Backends: 1, Handler: "c38", Namespaces: []*models.Namespace{ns, nm}}
 }
 
 // backendHandler makes the fake backend behave like a server with a parser: only the
@@ -709,7 +799,7 @@ func (w *world) start() {
 
 // connCount reads the namespace's client-connection counter inside the child.
 func (w *world) connCount() int {
-	rep, err := w.child.Command("conncount " + nsName)
+	rep, err := w.child.Command("conncount " + nsName + "," + multiNS)
 	if err != nil {
 		for d := time.Now().Add(3 * time.Second); w.child.Alive() && time.Now().Before(d); {
 			time.Sleep(2 * time.Millisecond)
@@ -737,6 +827,26 @@ func (w *world) waitCount(target int) (int, bool) {
 		}
 		time.Sleep(3 * time.Millisecond)
 	}
+}
+
+// cpuSeconds of a process (user + system) from /proc, -1 if unavailable.
+func cpuSeconds(pid int) float64 {
+	b, err := os.ReadFile(fmt.Sprintf("/proc/%d/stat", pid))
+	if err != nil {
+		return -1
+	}
+	t := string(b)
+	if i := strings.LastIndexByte(t, ')'); i >= 0 {
+		t = t[i+1:]
+	}
+	f := strings.Fields(t) // f[0] = state, utime = field 14 overall = f[11], stime = f[12]
+	if len(f) < 13 {
+		return -1
+	}
+	var u, sy float64
+	fmt.Sscan(f[11], &u)
+	fmt.Sscan(f[12], &sy)
+	return (u + sy) / 100
 }
 
 func healthy(addr string) (*e2erig.Client, error) {
@@ -773,8 +883,42 @@ func tail(s string, n int) string {
 
 func main() {
 	gx.Quiet()
-	e2erig.RegisterChildCommand("conncount", func(p *e2erig.Proxy, ns string) string {
-		return fmt.Sprint(server.VerifClientConnections(p.Mgr, ns))
+	e2erig.RegisterChildCommand("conncount", func(p *e2erig.Proxy, nss string) string {
+		n := 0
+		for _, ns := range strings.Split(nss, ",") {
+			n += server.VerifClientConnections(p.Mgr, ns)
+		}
+		return fmt.Sprint(n)
+	})
+	// scrape = what a monitoring system does: the manager's real /metrics handler (prometheus
+	// Registry.Gather over everything the statements recorded), the same through the admin
+	// server's real route, and the admin API's per-namespace fingerprint dumps (deferred
+	// consumers of per-statement state). A panic on one of their goroutines kills the child.
+	e2erig.RegisterChildCommand("scrape", func(p *e2erig.Proxy, _ string) string {
+		var out []string
+		for path, h := range p.Mgr.GetStatisticManager().GetHandlers() {
+			rec := httptest.NewRecorder()
+			h.ServeHTTP(rec, httptest.NewRequest("GET", path, nil))
+			out = append(out, fmt.Sprintf("%s=%d", path, rec.Code))
+		}
+		if addr := server.VerifAdminAddr(p.Srv); addr != "" {
+			cl := &http.Client{Timeout: 30 * time.Second}
+			for _, u := range []string{"/api/metric/metrics", "/api/proxy/stats/sessionsqlfingerprint/" + nsName, "/api/proxy/stats/backendsqlfingerprint/" + nsName,
+				"/api/proxy/stats/sessionsqlfingerprint/" + multiNS, "/api/proxy/stats/backendsqlfingerprint/" + multiNS} {
+				req, _ := http.NewRequest("GET", "http://"+addr+u, nil)
+				req.SetBasicAuth("admin", "admin")
+				resp, err := cl.Do(req)
+				if err != nil {
+					out = append(out, u+"=ERR:"+strings.ReplaceAll(err.Error(), "\n", " "))
+					continue
+				}
+				io.Copy(io.Discard, resp.Body)
+				resp.Body.Close()
+				out = append(out, fmt.Sprintf("%s=%d", u, resp.StatusCode))
+			}
+		}
+		sort.Strings(out)
+		return strings.Join(out, " ")
 	})
 	e2erig.RegisterHandler("c38", backendHandler)
 	e2erig.RegisterChildCommand("ping", func(*e2erig.Proxy, string) string { return "pong" })
@@ -795,7 +939,7 @@ func main() {
 		}
 		r.Violation(ev.Witness{
 			Summary:  fmt.Sprintf("%s: %s — client saw %q; bytes sent: %s %s %s", c, kind, res.outcome, hex.EncodeToString(res.sent), res.detail, tail(extra, 1500)),
-			Features: map[string]string{"kind": kind, "seed": c.Seed, "mutation": strings.Join(mk, "+"), "client": res.outcome, "site": site},
+			Features: map[string]string{"kind": kind, "seed": c.Seed, "mutation": strings.Join(mk, "+"), "client": res.outcome, "site": site, "cpu": res.cpu},
 			Case:     c,
 		})
 	}
@@ -849,7 +993,7 @@ func main() {
 			ev.Fatalf("healthy session: %v", err)
 		}
 		base := w.connCount()
-		res := runCase(w.child.Addr, c)
+		res := runCase(w.child.Addr, c, false)
 		settle(longSettle)
 		if !w.child.Alive() {
 			return "crash", res, w.child.ExitState() + "\n" + w.child.Stderr()
@@ -868,6 +1012,13 @@ func main() {
 				return "crash", res, w.child.ExitState() + "\n" + w.child.Stderr()
 			}
 			return "other_session_affected", res, err.Error()
+		}
+		// a scrape of the metrics / statistics after the case must not kill the process
+		w.child.Command("scrape")
+		settle(longSettle)
+		if !w.child.Alive() {
+			res.detail = "the process died when the metrics / statistics were scraped after the case"
+			return "crash", res, w.child.ExitState() + "\n" + w.child.Stderr()
 		}
 		// the namespace's connection counter returns to its value before the case
 		if n, ok := w.waitCount(base); !ok && w.child.Alive() {
@@ -913,6 +1064,57 @@ func main() {
 		return true, res, extra
 	}
 
+	// confirmHang: 5 connections send the case at the same time on a fresh child; every one
+	// must stay without answer and without close for the whole horizon (first wait + a second
+	// probe = 2 x 10 s); the child's CPU time over that interval goes into the witness.
+	maxHangReports := 1
+	if r.Thorough() {
+		maxHangReports = 2
+	}
+	hangReports := 0
+	confirmHang := func(c Case) (bool, result) {
+		w.child.Close()
+		w.start()
+		h, err := healthy(w.child.Addr)
+		if err != nil {
+			ev.Fatalf("healthy session on a fresh child: %v", err)
+		}
+		defer h.Close()
+		cpu0 := cpuSeconds(w.child.Pid())
+		t0 := time.Now()
+		rs := make([]result, 5)
+		var wg2 sync.WaitGroup
+		for i := range rs {
+			wg2.Add(1)
+			go func(i int) {
+				defer wg2.Done()
+				rs[i] = runCase(w.child.Addr, c, false)
+			}(i)
+		}
+		wg2.Wait()
+		cpu1 := cpuSeconds(w.child.Pid())
+		alive := w.child.Alive()
+		others := selectOne(h)
+		ok := alive
+		for _, x := range rs {
+			if x.bad != "hang" {
+				ok = false
+			}
+		}
+		res := rs[0]
+		if ok {
+			state := "idle"
+			if cpu0 >= 0 && cpu1-cpu0 > 5 {
+				state = "burning"
+			}
+			res.cpu = state
+			res.detail = fmt.Sprintf("5 of 5 connections got no packet and no close within %.0f s (first wait + a second probe); meanwhile the proxy process used %.1f s of CPU; select 1 on another session: %v", time.Since(t0).Seconds(), cpu1-cpu0, others)
+		}
+		w.child.Close()
+		w.start()
+		return ok, res
+	}
+
 	var rc Case
 	if r.ReplayCase(&rc) {
 		k, res, extra := runOne(rc)
@@ -946,9 +1148,11 @@ func main() {
 	var recent []Case   // the last cases that completed without any sign of trouble (a crash may come late)
 	var suspects []Case // cases to re-examine sequentially (in flight at a crash, hang candidates, health failures)
 	var wg sync.WaitGroup
-	var capped int32
+	var capped, abortBatch int32
+	hangSuspects := map[string]bool{}
 	batch := func(from, to int) {
 		next = int64(from)
+		atomic.StoreInt32(&abortBatch, 0)
 		for k := 0; k < workers; k++ {
 			wg.Add(1)
 			go func() {
@@ -975,7 +1179,21 @@ func main() {
 						atomic.AddInt64(&done, 1)
 						continue
 					}
-					res := runCase(addr, c)
+					if atomic.LoadInt32(&abortBatch) != 0 {
+						// too many commands without an answer in this batch: stop it (each one
+						// occupies a worker for the whole horizon and leaves a spinning session)
+						atomic.StoreInt32(&capped, 1)
+						return
+					}
+					res := runCase(addr, c, true)
+					if res.bad == "hang" {
+						omu.Lock()
+						hangSuspects[c.String()] = true
+						if len(hangSuspects) >= 4 {
+							atomic.StoreInt32(&abortBatch, 1)
+						}
+						omu.Unlock()
+					}
 					if os.Getenv("C38_DEBUG") != "" && c.Seed == "field_list" && c.Muts[0].K == "trunc" {
 						fmt.Fprintf(os.Stderr, "dbg %s -> %q bad=%q alive=%v\n", c, res.outcome, res.bad, w.child.Alive())
 					}
@@ -1024,7 +1242,7 @@ func main() {
 			w.start()
 		}
 		base := w.connCount()
-		res := runCase(w.child.Addr, c)
+		res := runCase(w.child.Addr, c, false)
 		n, ok := w.waitCount(base)
 		return !ok && w.child.Alive(), res, n - base
 	}
@@ -1036,6 +1254,23 @@ func main() {
 		}
 		batch(from, to)
 		settle(false)
+		if w.child.Alive() && len(hangSuspects) == 0 {
+			// what a monitoring system does after the clients' input: scrape the metrics and
+			// the per-namespace statistics; a panic in one of these deferred consumers of
+			// per-statement state kills the process
+			w.child.Command("scrape")
+			settle(false)
+			if !w.child.Alive() {
+				r.Add("batches_followed_by_a_fatal_scrape", 1)
+				suspects = append(append([]Case(nil), cases[from:to]...), suspects...)
+				recent = nil
+			}
+		}
+		if len(hangSuspects) > 0 {
+			// sessions that never answered keep spinning in the child: continue on a fresh one
+			w.child.Close()
+			w.start()
+		}
 		if !w.child.Alive() {
 			suspects = append(recent, suspects...)
 			recent = nil
@@ -1060,7 +1295,7 @@ func main() {
 				// left its slot occupied (counter >= base + 5 after the horizon)
 				base := w.connCount() - by
 				for i := 0; i < 4; i++ {
-					res = runCase(w.child.Addr, c)
+					res = runCase(w.child.Addr, c, false)
 				}
 				after, _ := w.waitCount(base)
 				if after-base < 5 {
@@ -1098,9 +1333,43 @@ func main() {
 				atomic.StoreInt32(&capped, 1)
 				break
 			}
+			if hangSuspects[c.String()] {
+				if hangReports >= maxHangReports {
+					r.Add("hang_candidates_not_examined", 1)
+					continue
+				}
+				ok, res2 := confirmHang(c)
+				if !ok {
+					r.Add("unconfirmed_hang_candidates", 1)
+					continue
+				}
+				report(c, "hang", res2, "")
+				reported++
+				hangReports++
+				found++
+				outcomes[c.Seed+"|hang"]++
+				continue
+			}
 			k, res, extra := runOne(c)
 			if k == "engine" {
 				ev.Fatalf("case %s: %s", c, extra)
+			}
+			if k == "hang" {
+				if hangReports >= maxHangReports {
+					r.Add("hang_candidates_not_examined", 1)
+					continue
+				}
+				ok, res2 := confirmHang(c)
+				if !ok {
+					r.Add("unconfirmed_hang_candidates", 1)
+					continue
+				}
+				report(c, "hang", res2, "")
+				reported++
+				hangReports++
+				found++
+				outcomes[c.Seed+"|hang"]++
+				continue
 			}
 			if k != "" {
 				ok, res2, extra2 := confirm(c, k)
@@ -1153,6 +1422,10 @@ func main() {
 		longSettle = false
 		lastCase = nil
 		lateCrash = nil
+		if len(hangSuspects) > 0 {
+			found++ // the batch's trouble is explained: no sequential re-run of the whole batch
+			hangSuspects = map[string]bool{}
+		}
 		if len(sus) > 0 && found == 0 {
 			// something went wrong in the parallel batch that no single suspect reproduces
 			// on its own: an earlier case of the batch may have damaged the server for the
